@@ -163,8 +163,12 @@ fn authenticate_message(lm_challenge_response: &[u8], nt_challenge_response:&[u8
 fn get_payload_field(message: &Component, length: u16, buffer_offset: u32) -> RdpResult<&[u8]> {
     let payload = cast!(DataType::Slice, message["Payload"])?;
     let offset = message.length() as usize - payload.len();
-    let start = buffer_offset as usize - offset;
+    // the field must lie inside the payload that follow the fixed part of the message
+    let start = (buffer_offset as usize).checked_sub(offset).ok_or(Error::RdpError(RdpError::new(RdpErrorKind::InvalidSize, "NTLM: buffer offset inside the message header")))?;
     let end = start + length as usize;
+    if end > payload.len() {
+        return Err(Error::RdpError(RdpError::new(RdpErrorKind::InvalidSize, "NTLM: buffer outside of the message")))
+    }
     Ok(&payload[start..end])
 }
 
